@@ -18,20 +18,24 @@ ASSUMPTIONS = ["shape tolerance 1e-9 * exact magnitude scale", "knot vectors com
 
 @st.composite
 def ins_desc(draw):
-    k = draw(st.sampled_from(["in", "in", "knot", "knot", "other"]))
+    k = draw(st.sampled_from(["in", "in", "knot", "knot", "other", "near"]))
     return [k, draw(st.integers(0, 63)), draw(st.integers(1, 63)) / 64.0, draw(st.integers(0, 7))]
 
 
 def pick_insert(p, kv, n, desc, others=()):
     """(u, s, r): an admissible insertion derived from the descriptor against the CURRENT knot vector."""
-    u, kind = build.resolve_param(p, kv, n, desc[:3], others=others)
+    if desc[0] == "near":
+        # 2^-18 (3.8e-6) next to an existing knot: a different knot for the library (its identification tolerance is 1e-7)
+        u, kind = build.resolve_param(p, kv, n, ["near", desc[1], desc[2], 1 if desc[3] % 2 else -1, 2.0 ** -18], others=others)
+    else:
+        u, kind = build.resolve_param(p, kv, n, desc[:3], others=others)
     s = shape.multiplicity(kv, u)
     if kind in ("start", "end") or s >= p:
         u, kind = build.resolve_param(p, kv, n, ["in", desc[1], desc[2]])
         s = shape.multiplicity(kv, u)
         if kind != "in" or s >= p:
             return None
-    if s == 0 and min(abs(u - k) for k in kv) < 1e-4:
+    if s == 0 and min(abs(u - k) for k in kv) < (2.0 ** -19 if kind == "near" else 1e-4):
         # the library identifies knots closer than 1e-7 (find_multiplicity tolerance); histories that keep
         # subdividing the same span would drift into that band, which is outside the property's input domain
         return None
